@@ -167,10 +167,10 @@ def returnTypeOf (returns : Option Expr) (body : List Stmt) : Option String :=
   | none => none
   | some e => if containsYield body then some (yieldedType e) else some (exprToString e)
 
-/-- `extract_docstring`; outer `none` = no docstring, inner `none` = `format_docstring` panics. -/
-def docstringOf (body : List Stmt) : Option (Option String) :=
+/-- `extract_docstring`. -/
+def docstringOf (body : List Stmt) : Option String :=
   match body with
-  | .expr (.constant (.str s) _) _ :: _ => some ((formatDocstring s.toList).map String.ofList)
+  | .expr (.constant (.str s) _) _ :: _ => some (String.ofList (formatDocstring s.toList))
   | _ => none
 
 /-! ### analyzer.rs: yield line -/
@@ -305,7 +305,8 @@ inductive Event where
   | defn (d : Def)
   | usage (u : Usage)
   | scan (b : BodyScan)
-  /-- `format_docstring` panicked while this statement was visited: analysis aborts here. -/
+  /-- an analysis-aborting panic. No statement produces it any more (E7 repaired; see
+      `C11_analysis_never_panics`); kept so that the replay machinery stays total. -/
   | panic
   deriving Repr, Inhabited
 
@@ -353,12 +354,8 @@ def visitFunction (f : Path) (lines : List Chars) (modNames : List String)
   match decos.find? isFixtureDecorator with
   | none => marks ++ testEvents f modNames name args body r
   | some deco =>
-    match docstringOf body with
-    | some none => marks ++ [.panic]     -- `format_docstring` panicked: nothing further is recorded
-    | some (some s) => marks ++ fixtureEvents f lines modNames name deco args returns body r (some s) ++
-        testEvents f modNames name args body r
-    | none => marks ++ fixtureEvents f lines modNames name deco args returns body r none ++
-        testEvents f modNames name args body r
+    marks ++ fixtureEvents f lines modNames name deco args returns body r (docstringOf body) ++
+      testEvents f modNames name args body r
 
 /-- the definition an assignment-style fixture records for one target -/
 def assignTargetDef (f : Path) (r : Range) : Expr → Option Def
